@@ -39,7 +39,7 @@ def molarMassOf (d : Db) (sym : String) : Option Rat :=
     | none => none
     | some s =>
       match s.get "molar_mass" with
-      | .ok ⟨.rational q, _⟩ => some q
+      | .ok ⟨.rational q, u⟩ => if u == Formula.molarMassUnit then some q else none
       | _ => none
 
 partial def loop (h out : IO.FS.Stream) (d : Db) : IO Unit := do
